@@ -1,4 +1,4 @@
-import DmrVerif.Lemmas.StorageInv
+import DmrVerif.Lemmas.StorageAttrs
 import DmrVerif.Gen.Storage
 
 /-!
@@ -261,6 +261,98 @@ name, `match_ip_incoming` over a non-tuple address) leaves the storage exactly a
 theorem error_leaves_state (h : List Op) (op : Op) (e : Err) (he : (step (run h).1 op).2 = .err e) :
     (step (run h).1 op).1 = (run h).1 :=
   step_err_state _ op e he
+
+/-! ## dynamic attributes are addressed by the exact key — no normalisation of names
+
+`patch_exactly_named` above already quantifies over *all* strings: a key that is not named keeps its
+value however similar it is to a named one (`"…2.4.10.0"` / `"…2.4.1.0"`, case, white space, Unicode
+forms, prefixes).  The same for the two direct entry points `attr` / `delete_attr`, and a tie of the
+names the library itself stores to the model's notion of "different attribute". -/
+
+private def isMember (k : String) : Bool := match Key.ofName k with | .field _ => true | .dyn _ => false
+
+/-- the attribute names the library stores by itself (`SNMP.OID_*`, the `STORAGE_ATTR_*` constants of
+the P2P / RDAC handlers; read from `/repo` on this run) are pairwise distinct strings, and exactly
+`callsign` and `serial` of them are data members: all others are pairwise distinct dynamic attributes -/
+theorem library_keys_distinct :
+    Gen.Storage.libraryKeys.Nodup ∧ Gen.Storage.libraryKeys.filter isMember = ["callsign", "serial"] := by
+  decide
+
+/-- **attr_exactly_named.** `rpt.attr(k, v)` with `v` not `None` returns `v`; afterwards `attr(k)` reads
+`v`, every other key `k' ≠ k` of the record reads what it read before, all data members are unchanged
+(and every other record is untouched: `patch_local_others`). -/
+theorem attr_exactly_named (h : List Op) (i : Nat) (k : String) (v : Val) (r : Rec)
+    (hr : (run h).1.objs[i]? = some r) (hv : v ≠ .none) :
+    ∃ r', (step (run h).1 (.attr i k v)).1.objs[i]? = some r' ∧
+      (step (run h).1 (.attr i k v)).2 = .val v ∧
+      r'.attr k = v ∧ (∀ k', k' ≠ k → r'.attr k' = r.attr k') ∧ (∀ f, r'.get f = r.get f) := by
+  obtain ⟨h1, h2⟩ := step_attr_write (run h).1 i k v r hr hv
+  refine ⟨r.setAttr k v, h1, h2, ?_, ?_, ?_⟩
+  · rw [Rec.attr_setAttr, if_pos rfl]
+  · intro k' hk
+    rw [Rec.attr_setAttr, if_neg (fun e => hk e.symm)]
+  · intro f; exact Rec.get_setAttr r k v f
+
+/-- reading an attribute changes nothing and answers with the value stored under exactly this key -/
+theorem attr_read_pure (h : List Op) (i : Nat) (k : String) (r : Rec) (hr : (run h).1.objs[i]? = some r) :
+    step (run h).1 (.attr i k .none) = ((run h).1, .val (r.attr k)) :=
+  step_attr_read _ i k r hr
+
+/-- **delete_exactly_named.** A successful `delete_attr(k)` makes `attr(k)` read `None` (the private
+dictionary never holds a key twice, after any history) and leaves every other key and all data
+members of the record as they were. -/
+theorem delete_exactly_named (h : List Op) (i : Nat) (k : String) (r : Rec)
+    (hr : (run h).1.objs[i]? = some r) (hres : (step (run h).1 (.deleteAttr i k)).2 = .true) :
+    ∃ r', (step (run h).1 (.deleteAttr i k)).1.objs[i]? = some r' ∧
+      r'.attr k = .none ∧ (∀ k', k' ≠ k → r'.attr k' = r.attr k') ∧ (∀ f, r'.get f = r.get f) := by
+  refine ⟨_, step_delete (run h).1 i k r hr hres, ?_, ?_, ?_⟩
+  · have hn := attrsNodup_run h r (List.mem_of_getElem? hr)
+    simp only [Rec.attr, dictGet_dictDel_self r.attrs k hn, Option.getD_none]
+  · intro k' hk
+    simp only [Rec.attr, dictGet_dictDel_ne r.attrs k k' (fun e => hk e.symm)]
+  · intro f; cases f <;> rfl
+
+/-- look-alike names are different attributes: the two Hytera OIDs that differ by a `0` before the
+instance suffix, a name and its upper-case / padded / NFD spellings — each keeps its own value -/
+example :
+    let h : List Op :=
+      [.matchIncoming (.addr [49] 1) true [(.dyn "1.3.6.1.4.1.40297.1.2.4.1.0", .int 1)],
+       .patch 0 [(.dyn "1.3.6.1.4.1.40297.1.2.4.10.0", .int 2), (.dyn "rx_freq", .int 3)],
+       .attr 0 "RX_FREQ" (.int 4), .attr 0 "rx_freq " (.int 5), .attr 0 "rx_freq.0" (.int 6),
+       .deleteAttr 0 "1.3.6.1.4.1.40297.1.2.4.10.0",
+       .attr 0 "1.3.6.1.4.1.40297.1.2.4.1.0" .none, .attr 0 "rx_freq" .none, .attr 0 "rx_freq." .none]
+    okHist init h = true ∧
+    (run h).2 = [.obj 0, .obj 0, .val (.int 4), .val (.int 5), .val (.int 6), .true,
+                 .val (.int 1), .val (.int 3), .val .none] := by decide
+
+/-! ## scale: nothing is ever evicted -/
+
+/-- **never_evicts.** Under P1/P2, after a history of *any* length, the stored objects are exactly the
+objects the storage ever created, in creation order; `len(storage)` is their number.  There is no
+bound on the number of records and no record is dropped, whether or not it was ever identified
+(`dmr_id`), patched or looked up again. -/
+theorem never_evicts (h : List Op) (ok : okHist init h = true) :
+    (run h).1.refs = List.range (run h).1.objs.length ∧
+    (run h).1.len = (run h).1.objs.length ∧
+    (run h).1.records = (run h).1.objs := by
+  have inv := inv_run h ok
+  exact ⟨inv.refs_eq, inv.len_eq, inv.records_eq⟩
+
+/-- the heap of created objects never shrinks (unconditional) -/
+theorem objs_never_shrink (h : List Op) (op : Op) :
+    (run h).1.objs.length ≤ (step (run h).1 op).1.objs.length := by
+  rw [step_objs_length]; omega
+
+/-- a record created at any point of a history is still the one returned for its address after any
+continuation `h2` (any length) that does not assign `address_in` — however many other records were
+created meanwhile -/
+theorem created_record_survives (h1 h2 : List Op) (a : Val) (p1 : Patch) (x y : Nat) (au : Bool)
+    (ok : okHist init (h1 ++ Op.matchIncoming a true p1 :: (h2 ++ [Op.matchIncoming a au []])) = true)
+    (hno : ∀ op ∈ Op.matchIncoming a true p1 :: h2, op.names .addressIn = false)
+    (r1 : (step (run h1).1 (.matchIncoming a true p1)).2 = .obj x)
+    (r2 : (step (runFrom (step (run h1).1 (.matchIncoming a true p1)).1 h2).1 (.matchIncoming a au [])).2 = .obj y) :
+    x = y :=
+  (same_address_same_object h1 h2 a true au p1 [] x y ok hno r1 r2).1
 
 /-! ## the hypotheses are satisfiable by non-trivial histories -/
 
